@@ -30,9 +30,12 @@ fn newton_scalar<T: Ev + Re + Sc>(t: &mut Toks, cx: &mut Ctx, run: impl Fn(&Newt
     let roots: Vec<T> = t.vec();
     let e: Expr<T> = Expr::parse(t);
     cx.meta("tag", T::TAG); cx.meta("family", &family); cx.meta("max_iter", max_iter);
-    let mut nw = Newton::new(guess);
+    // (constructed with another guess and then edited: covers both `new` and the `guess` setter)
+    let mut nw = Newton::new(T::zero());
+    nw.guess(guess);
     nw.tolerance(tol); nw.delta(delta); nw.iterations(max_iter);
     let before = nw.parameters();
+    cx.check(before.3.same(&guess), "guess() did not replace the initial guess");
     let trace: RefCell<Vec<T>> = RefCell::new(Vec::new());
     let f = |x: T| { trace.borrow_mut().push(x); e.eval(&[x]) };
     let r1 = guarded(|| run(&nw, &f));
